@@ -25,6 +25,9 @@ mod funcs;
 mod fuzz;
 mod optree;
 mod spill;
+mod typing;
+mod distplan;
+mod morsel;
 
 fn main() {
     let args: Vec<String> = std::env::args().collect();
@@ -78,6 +81,13 @@ fn main() {
         "sidecar-orch" => sidecar::orch(rest),
         "sidecar-stress" => sidecar::stress(rest),
         "spill-replay" => spill::replay(rest),
+        "typing-run" => typing::run(rest),
+        "distplan-run" => distplan::run(rest),
+        "morsel-mk" => morsel::mk(rest),
+        "morsel-sched" => morsel::sched(rest),
+        "morsel-free" => morsel::free(rest),
+        "morsel-readall" => morsel::readall(rest),
+        "morsel-agg" => morsel::agg(rest),
         other => {
             eprintln!("unknown subcommand {other}");
             2
